@@ -24,6 +24,7 @@ import (
 	"image"
 	"image/png"
 	"os"
+	"regexp"
 	"strconv"
 	"strings"
 	"testing"
@@ -866,7 +867,44 @@ func (e *c19Env) l2(out *zzverif.Out, c *c19Case, costs []int, r *c19Real, line 
 		}
 	}
 	if literalTag {
-		out.Count("l2_skip_tagcount_literal_tag_in_text")
+		// Finding F5: a message's TEXT spells `[img-N]`.  The clauses are evaluated all the same; a failure that is
+		// exactly what the typed tags explain is labelled (for known-finding matching; the label never turns a failure
+		// into a pass): tag k of a retained message's own image occurs 1 + (typed occurrences) times in the rewritten
+		// message; the prompt mentions an image that is not in the returned list and that number was typed.
+		out.Count("l2_literal_tag_in_text_evaluated")
+		const label = "literal image tag in message text: "
+		typed := func(j int, tag string) int { return strings.Count(c.msgs[j].content, tag) }
+		for k, w := range want {
+			tag := fmt.Sprintf("[img-%d]", k)
+			got := strings.Count(r.msgs[w.msg].Content, tag)
+			switch {
+			case got == 1:
+			case typed(w.msg, tag) > 0 && got == 1+typed(w.msg, tag):
+				out.L2("image-tag-msg", line, fmt.Sprintf("%stag %s occurs %d times in the rewritten message %d (once written by chatPrompt, %d typed in the text): the runner embeds image %d %d times", label, tag, got, w.msg, typed(w.msg, tag), k, got))
+			default:
+				out.L2("image-tag-msg", line, fmt.Sprintf("tag %s occurs %d times in the rewritten message %d (%d typed in the text)", tag, got, w.msg, typed(w.msg, tag)))
+			}
+		}
+		// what the runner will look up: every `[img-N]` of the prompt
+		seen := map[int]bool{}
+		for _, mt := range c19TagRe.FindAllStringSubmatch(r.prompt, -1) {
+			nn, _ := strconv.Atoi(mt[1])
+			if nn < len(want) || seen[nn] {
+				continue
+			}
+			seen[nn] = true
+			wasTyped := false
+			for j := range c.msgs {
+				if c19TagNumberTyped(c.msgs[j].content, nn) {
+					wasTyped = true
+				}
+			}
+			if wasTyped {
+				out.L2("image-tag-dangling", line, fmt.Sprintf("%sthe prompt mentions image %d but only %d images are returned (the number was typed in a message): the runner answers `invalid image index: %d`", label, nn, len(want), nn))
+			} else {
+				out.L2("image-tag-dangling", line, fmt.Sprintf("prompt mentions image %d but only %d images are expected", nn, len(want)))
+			}
+		}
 		return
 	}
 	for k, w := range want {
@@ -890,6 +928,21 @@ func (e *c19Env) l2(out *zzverif.Out, c *c19Case, costs []int, r *c19Real, line 
 			out.L2("image-tag-dangling", line, fmt.Sprintf("prompt mentions [img-%d] but only %d images are expected", k, len(want)))
 		}
 	}
+}
+
+var c19TagRe = regexp.MustCompile(`\[img-(\d+)\]`)
+
+var c19OpenTagRe = regexp.MustCompile(`\[img-(\d+)$`)
+
+// c19TagNumberTyped: does the text contain a literal `[img-<digits>]` whose number is nn, or end with the
+// unfinished `[img-<digits>` (which a template that prints `]` after the content completes)?
+func c19TagNumberTyped(text string, nn int) bool {
+	for _, mt := range append(c19TagRe.FindAllStringSubmatch(text, -1), c19OpenTagRe.FindAllStringSubmatch(text, -1)...) {
+		if v, err := strconv.Atoi(mt[1]); err == nil && v == nn {
+			return true
+		}
+	}
+	return false
 }
 
 var c19Words = []string{"a", "bb", "cde", "fgh", "ij", "kl", "abcdefghijkl", "I-I'm", "wager.", "{{x}}", "]", "[", "[im", "g]", "|", "S<", ">"}
@@ -954,7 +1007,9 @@ func c19Gen(r *zzverif.Rng) *c19Case {
 			}
 		}
 		if r.Chance(1, 40) {
-			parts = append(parts, "[img-0]") // literal tag in user text: outside the hypothesis
+			// literal tag typed in the text (finding F5): an index that may or may not be an image of the conversation,
+			// a leading-zero form, an unfinished tag
+			parts = append(parts, zzverif.Pick(r, []string{"[img-0]", "[img-0]", "[img-1]", "[img-5]", "[img-01]", "[img-", "[img-2"}))
 		}
 		nimg := 0
 		if r.Intn(10) < imgRate {
@@ -1262,6 +1317,25 @@ func TestVerifC19Probe(t *testing.T) {
 	t.Logf("legacy-overwrite (empty assistant) prompt=%q", run(2048, []api.Message{{Role: "user", Content: "hello"}, {Role: "assistant", Content: ""}, {Role: "user", Content: "again"}}))
 	t.Logf("legacy-overwrite (tool between) prompt=%q", run(2048, []api.Message{{Role: "user", Content: "first"}, {Role: "tool", Content: "42"}, {Role: "user", Content: "second"}}))
 	t.Logf("legacy-overwrite (system) prompt=%q", run(2048, []api.Message{{Role: "system", Content: "A"}, {Role: "user", Content: ""}, {Role: "system", Content: "B"}, {Role: "user", Content: "hi"}}))
+}
+
+// TestVerifC19ProbeLiteralTag: finding F5 on the real chatPrompt, no model involved: a literal `[img-N]` in a
+// message's text reaches the prompt untouched, next to the tags chatPrompt writes itself.
+func TestVerifC19ProbeLiteralTag(t *testing.T) {
+	inPlace, _ := template.Parse(c19TemplateSrc[c19StyleInPlace])
+	tok := func(_ context.Context, s string) ([]int, error) { return make([]int, len(strings.Fields(s))), nil }
+	opts := api.Options{Runner: api.Runner{NumCtx: 2048}}
+	m := &Model{Template: inPlace, ProjectorPaths: []string{"vision"}}
+	p, imgs, err := chatPrompt(context.Background(), m, tok, &opts, []api.Message{{Role: "user", Content: "see [img-0]", Images: []api.ImageData{[]byte("IMG")}}}, nil)
+	t.Logf("text with a literal tag + one image: prompt=%q images=%d err=%v", p, len(imgs), err)
+	if strings.Count(p, "[img-0]") != 2 || len(imgs) != 1 {
+		t.Errorf("expected the tag of the single image twice in the prompt")
+	}
+	p, imgs, err = chatPrompt(context.Background(), m, tok, &opts, []api.Message{{Role: "user", Content: "[img-5]"}}, nil)
+	t.Logf("text with a literal tag, no image: prompt=%q images=%d err=%v", p, len(imgs), err)
+	if !strings.Contains(p, "[img-5]") || len(imgs) != 0 {
+		t.Errorf("expected a tag without image in the prompt")
+	}
 }
 
 // TestVerifC19Trees (Tie 1) writes the parse trees that the REAL template.Parse builds for the four
